@@ -38,6 +38,7 @@ type planned struct {
 	Reqs    []frameSpec `json:"requests,omitempty"`
 	Script  *rawScript  `json:"script,omitempty"`
 	N       int         `json:"n,omitempty"`
+	Dir     string      `json:"dir,omitempty"` // oversize: "request" | "response"
 }
 
 func (p planned) run() *result {
@@ -54,9 +55,13 @@ func (p planned) run() *result {
 	case "rawserver":
 		return runRawServer(p.ID, v, c, p.Auth, p.Reqs, *p.Script)
 	case "oversize":
-		return probeOversizeSend(v, p.N)
-	case "lowercase":
-		return probeLowercase(v)
+		return probeOversizeSend(v, p.N, p.Dir)
+	case "managed":
+		return probeManaged(v, p.N)
+	case "unknowncomp":
+		return probeUnknownCompression(v, p.Comp)
+	case "dualstack":
+		return probeDualStack()
 	}
 	panic("unknown mode " + p.Mode)
 }
@@ -385,8 +390,87 @@ func buildPlan(tier string, seed int64) []planned {
 			i++
 		}
 	}
-	add(planned{ID: "oversize-send-v5", Mode: "oversize", Version: 5, N: 140000})
-	add(planned{ID: "lowercase-compression-v4", Mode: "lowercase", Version: 4})
+	// a write that fails (v5 envelope above one segment) must end the connection on both sides, in both directions
+	add(planned{ID: "oversize-request-v5", Mode: "oversize", Version: 5, N: 140000, Dir: "request"})
+	add(planned{ID: "oversize-response-v5", Mode: "oversize", Version: 5, N: 140000, Dir: "response"})
+	// managed stream ids, strictly sequential requests (v2: known finding; v3: the same sequence as control)
+	add(planned{ID: "managed-ids-v2", Mode: "managed", Version: 2, N: 300})
+	add(planned{ID: "managed-ids-v3", Mode: "managed", Version: 3, N: 300})
+	add(planned{ID: "unknown-compression-v4", Mode: "unknowncomp", Version: 4, Comp: "zstd"})
+	add(planned{ID: "unknown-compression-v4-long-s", Mode: "unknowncomp", Version: 4, Comp: "\u017fnappy"}) // strings.ToUpper maps U+017F to S
+	add(planned{ID: "dual-stack-listener", Mode: "dualstack", Version: 4})
+
+	// (a') STARTUP spelling the compression algorithm as the specifications and the drivers do (lower case), or in mixed case:
+	// READY / AUTHENTICATE must arrive and the compressed exchange that follows must work
+	for k, sc := range []struct {
+		v     primitive.ProtocolVersion
+		c     primitive.Compression
+		spell string
+		auth  bool
+	}{{primitive.ProtocolVersion3, primitive.CompressionLz4, "lz4", false}, {primitive.ProtocolVersion3, primitive.CompressionSnappy, "snappy", true},
+		{primitive.ProtocolVersion4, primitive.CompressionLz4, "Lz4", true}, {primitive.ProtocolVersion4, primitive.CompressionSnappy, "sNaPpY", false},
+		{primitive.ProtocolVersion4, primitive.CompressionNone, "none", false},
+		{v5, primitive.CompressionLz4, "lz4", false}, {v5, primitive.CompressionLz4, "lZ4", true}} {
+		reqs := genRequests(r0, sc.v, sc.c, 6, 5000, 10)
+		script := &rawScript{StartupComp: sc.spell, Specs: reqs, Chunk: chunkFor(r0, 5000), Conforming: true, Class: "startup-case"}
+		if sc.v.SupportsModernFramingLayout() {
+			script.Plan = mixedPlan(r0, sc.v, reqs, 3, map[int]int{2: 2})
+		}
+		add(planned{ID: fmt.Sprintf("rawclient-v%d-startup-%s-%d", sc.v, sc.spell, k), Mode: "rawclient", Version: int(sc.v), Comp: string(sc.c), Auth: sc.auth, Script: script})
+	}
+
+	// (a'') bodies that are longer than their message needs ("safe to ignore the remainder of the body"): spare bytes after
+	// SUPPORTED / READY / RESULT / ERROR / EVENT (towards the client) and after OPTIONS / QUERY / REGISTER ... (towards the server), in
+	// legacy framing and inside v5 segments (first, middle, last of a segment, alone, cut over several segments), each followed by
+	// further envelopes: everything must be delivered
+	spareResp := func() []frameSpec {
+		return []frameSpec{
+			{Kind: "supported", Sid: 10, Spare: 3}, {Kind: "ready", Sid: 11, Spare: 5}, {Kind: "void", Sid: 12, Spare: 1},
+			{Kind: "rows", Sid: 13, Fill: "p", Seed: 3, N: 40, Spare: 7}, {Kind: "rows", Sid: 14, Fill: "l", Seed: 4, N: 300},
+			{Kind: "event", Sid: -1, Fill: "p", Seed: 1, N: 20, Spare: 2}, {Kind: "setks", Sid: 15, Fill: "p", Seed: 5, N: 12, Spare: 9},
+			{Kind: "unavailable", Sid: 16, Fill: "p", Seed: 6, N: 30, Spare: 4}, {Kind: "ready", Sid: 17}, {Kind: "authchallenge", Sid: 18, Fill: "p", Seed: 7, N: 16, Spare: 6},
+			{Kind: "supported", Sid: 19, Spare: 300}, {Kind: "void", Sid: 20}}
+	}
+	spareReq := func() []frameSpec {
+		return []frameSpec{
+			{Kind: "options", Sid: 10, Spare: 3}, {Kind: "query", Sid: 11, Fill: "p", Seed: 2, N: 25, Spare: 2}, {Kind: "register", Sid: 12, Spare: 4},
+			{Kind: "prepare", Sid: 13, Fill: "p", Seed: 3, N: 30, Spare: 1}, {Kind: "options", Sid: 14}, {Kind: "execute", Sid: 15, Fill: "p", Seed: 4, N: 16, Spare: 8},
+			{Kind: "batch", Sid: 16, Fill: "p", Seed: 5, N: 20, Spare: 5}, {Kind: "authresponse", Sid: 17, Fill: "l", Seed: 6, N: 24, Spare: 6},
+			{Kind: "options", Sid: 18, Spare: 200}, {Kind: "query", Sid: 19, Fill: "p", Seed: 7, N: 9}}
+	}
+	// v5: [0 1] [2] [3 4 5] (6 cut in 3 parts) [7 8 9] [10] [11]  /  [0] [1 2] (3 cut) [4 5 6] [7 8] [9]
+	sparePlan := func(v primitive.ProtocolVersion, specs []frameSpec, groups [][]int) []segPlan {
+		var pl []segPlan
+		for _, g := range groups {
+			if len(g) == 1 && g[0] < 0 {
+				i := -g[0]
+				pl = append(pl, splitPlan(i, cutParts(r0, envLen(v, specs[i]), 3, 1))...)
+				continue
+			}
+			var sl [][3]int
+			for _, i := range g {
+				sl = append(sl, whole(i, envLen(v, specs[i])))
+			}
+			pl = append(pl, segPlan{Self: true, Slices: sl})
+		}
+		return pl
+	}
+	for k, sc := range []struct {
+		v primitive.ProtocolVersion
+		c primitive.Compression
+	}{{primitive.ProtocolVersion4, primitive.CompressionNone}, {primitive.ProtocolVersion3, primitive.CompressionLz4}, {primitive.ProtocolVersion2, primitive.CompressionNone},
+		{v5, primitive.CompressionNone}, {v5, primitive.CompressionLz4}} {
+		resps, reqs := spareResp(), spareReq()
+		ssc := &rawScript{Specs: resps, Chunk: chunkFor(r0, 3000), Conforming: true, Class: "spare-bytes"}
+		csc := &rawScript{Specs: reqs, Chunk: chunkFor(r0, 3000), Conforming: true, Class: "spare-bytes"}
+		if sc.v.SupportsModernFramingLayout() {
+			ssc.Plan = sparePlan(sc.v, resps, [][]int{{0, 1}, {2}, {3, 4, 5}, {-6}, {7, 8, 9}, {10}, {11}})
+			csc.Plan = sparePlan(sc.v, reqs, [][]int{{0}, {1, 2}, {-3}, {4, 5, 6}, {7, 8}, {9}})
+		}
+		add(planned{ID: fmt.Sprintf("rawserver-v%d-%s-spare-%d", sc.v, compName(sc.c), k), Mode: "rawserver", Version: int(sc.v), Comp: string(sc.c), Auth: k%2 == 1,
+			Reqs: smallRequests(answered(resps), 10), Script: ssc})
+		add(planned{ID: fmt.Sprintf("rawclient-v%d-%s-spare-%d", sc.v, compName(sc.c), k), Mode: "rawclient", Version: int(sc.v), Comp: string(sc.c), Auth: k%2 == 0, Script: csc})
+	}
 
 	// (b) raw peer, legacy layout: frames back to back, chunked writes
 	j := 0
